@@ -3,6 +3,7 @@ package props
 import (
 	"fmt"
 	"go/token"
+	"strings"
 
 	"golang.org/x/tools/go/ssa"
 
@@ -467,4 +468,228 @@ func straightTo(from, to *ssa.BasicBlock) bool {
 		from = from.Succs[0]
 	}
 	return false
+}
+
+// partialAckCoverageGroup: when applyRequests fails at request #failedAt, every request from
+// failedAt on (the failing one included) gets the error; only the prefix before it is
+// acknowledged with nil.
+func partialAckCoverageGroup(c *Ctx, rule string) {
+	c.Rule(rule, "DB.commitWorker, partial failure: the per-request error map handed to finishCommitRequests is filled for requests[failedAt:] — the lower bound of the index loop / sub-slice is failedAt+K with K <= 0 (affine normal form; failedAt is applyRequests' first result or 0 after a failed sync) — so the request whose apply failed is never acknowledged with a nil error")
+	fn, sites := ackSites(c)
+	if fn == nil {
+		return
+	}
+	aps := Calls(fn, false, Named("NoKV.(*DB).applyRequests"))
+	if len(aps) == 0 {
+		return
+	}
+	var fa ssa.Value
+	for _, r := range *aps[0].Value().Referrers() {
+		if ex, ok := r.(*ssa.Extract); ok && ex.Index == 0 {
+			fa = ex
+		}
+	}
+	if fa == nil {
+		c.Fail(rule, key(fn, "has:failedAt"), fn.Pos(), 1, "applyRequests' first result (failedAt) is unused")
+		return
+	}
+	// atoms: failedAt itself and phis that merge it with the constant 0
+	isFA := func(v ssa.Value) bool {
+		v = Unwrap(v)
+		if v == fa {
+			return true
+		}
+		if ph, ok := v.(*ssa.Phi); ok {
+			for _, e := range ph.Edges {
+				e = Unwrap(e)
+				if e == fa {
+					continue
+				}
+				if k, ok := ConstInt(e); ok && k == 0 {
+					continue
+				}
+				return false
+			}
+			return true
+		}
+		return false
+	}
+	n := 0
+	for _, s := range sites {
+		if IsNilConst(s.per) {
+			continue
+		}
+		// map updates into the per-request map
+		AllInstrs(fn, false, func(in ssa.Instruction) {
+			mu, ok := in.(*ssa.MapUpdate)
+			if !ok || mu.Map != s.per {
+				return
+			}
+			n++
+			lows := lowerBoundsOfKey(mu.Key)
+			good := len(lows) > 0
+			worst := int64(0)
+			for _, lo := range lows {
+				var atoms []ssa.Value
+				af := AffineOf(lo)
+				okShape := len(af.Terms) == 1
+				for v, k := range af.Terms {
+					if k != 1 || !isFA(v) {
+						okShape = false
+					}
+					atoms = append(atoms, v)
+				}
+				if !okShape || af.K > 0 {
+					good = false
+					if af.K > worst {
+						worst = af.K
+					}
+				}
+			}
+			c.Decide(good, rule, key(fn, fmt.Sprintf("perReqErr-fill[%d]#from:failedAt", n)), mu.Pos(), len(lows)+1, "the error map covers requests[failedAt:]", fmt.Sprintf("the error map does not start at failedAt (lower bound failedAt%+d or not derived from it): the request whose apply failed is acknowledged with a nil error although it was never applied", worst))
+		})
+	}
+	c.Decide(n >= 1, rule, key(fn, "has:perReqErr-fill"), fn.Pos(), 1, "per-request error map is filled", "no fill of the per-request error map found although a partial acknowledgement exists")
+}
+
+// lowerBoundsOfKey: key is requests[i]; returns the possible initial values of i (index
+// loops: the non-increment phi edges; range over a sub-slice: the slice's low bound).
+func lowerBoundsOfKey(k ssa.Value) []ssa.Value {
+	u, ok := k.(*ssa.UnOp)
+	if !ok || u.Op != token.MUL {
+		return nil
+	}
+	ia, ok := u.X.(*ssa.IndexAddr)
+	if !ok {
+		return nil
+	}
+	var out []ssa.Value
+	// range over requests[lo:]: the indexed slice is a Slice instruction
+	if sl, ok := ia.X.(*ssa.Slice); ok {
+		if sl.Low != nil {
+			return []ssa.Value{sl.Low}
+		}
+		return nil
+	}
+	if ph, ok := ia.Index.(*ssa.Phi); ok {
+		for _, e := range ph.Edges {
+			if bo, ok := e.(*ssa.BinOp); ok && bo.Op == token.ADD && bo.X == ssa.Value(ph) {
+				continue // i++
+			}
+			out = append(out, e)
+		}
+	}
+	return out
+}
+
+// entryRefOwnershipGroup: a write request owns one reference of each entry it carries
+// and drops it when the request is recycled (request.DecrRef, reached from request.Wait).
+// A caller may therefore release its hand-over reference on an error edge only if the
+// failing callee is known not to have recycled a request that still carried the entries;
+// otherwise the release is a second one and kv.Entry.DecrRef panics (refcount underflow)
+// instead of the write returning its error.
+func entryRefOwnershipGroup(c *Ctx, rule string) {
+	c.Rule(rule, "ownership of entry references on the write path: (a) in DB.sendToWriteCh every request.DecrRef on a path that returns an error is dominated by `req.Entries = nil` (a rejected request leaves the entries with the caller); (b) in the root package, a kv.Entry.DecrRef that is dominated by the error edge of a call is legal only if that callee cannot recycle a request carrying entries (it reaches neither request.Wait nor an undetached request.DecrRef); the success path hands the reference to request.Wait")
+	reqDecr := Named("NoKV.(*request).DecrRef")
+	reqWait := Named("NoKV.(*request).Wait")
+	// detached(f, d): d (a request.DecrRef in f) is dominated by a nil store to request.Entries
+	detached := func(f *ssa.Function, d ssa.Instruction) bool {
+		for _, st := range fieldStoresIn(f, false, "NoKV.request", "Entries") {
+			if sv, ok := st.(*ssa.Store); ok && IsNilConst(sv.Val) && Dominates(st, d) {
+				return true
+			}
+		}
+		return false
+	}
+	// consumes(f): f may recycle a request that still carries its entries
+	memo := map[*ssa.Function]bool{}
+	var consumes func(f *ssa.Function, depth int) bool
+	consumes = func(f *ssa.Function, depth int) bool {
+		if v, ok := memo[f]; ok {
+			return v
+		}
+		memo[f] = false
+		res := false
+		AllInstrs(f, false, func(in ssa.Instruction) {
+			ci, ok := in.(ssa.CallInstruction)
+			if !ok || res {
+				return
+			}
+			if reqWait(ci.Common()) {
+				res = true
+				return
+			}
+			if reqDecr(ci.Common()) && !detached(f, in) {
+				res = true
+				return
+			}
+			if depth > 0 {
+				if sf := StaticFn(ci.Common()); sf != nil && sf.Blocks != nil && FuncPkgPath(sf) == Module && sf != f {
+					if consumes(sf, depth-1) {
+						res = true
+					}
+				}
+			}
+		})
+		memo[f] = res
+		return res
+	}
+	if fn := c.Fn("", "DB.sendToWriteCh"); fn != nil {
+		n := 0
+		for _, d := range Calls(fn, false, reqDecr) {
+			n++
+			c.Decide(detached(fn, d.(ssa.Instruction)), rule, key(fn, fmt.Sprintf("request.DecrRef[%d]<-Entries=nil", n)), d.Pos(), 2, "a request that was never enqueued is recycled without its entries", "sendToWriteCh recycles a rejected request that still carries the caller's entries: their reference is dropped although the call reports failure, and the caller's own release then underflows the refcount (panic instead of an error)")
+		}
+	}
+	sites := 0
+	for _, f := range c.P.ModFuncs {
+		if FuncPkgPath(f) != Module {
+			continue
+		}
+		for _, d := range Calls(f, false, Named("kv.(*Entry).DecrRef")) {
+			din, ok := d.(*ssa.Call)
+			if !ok {
+				continue // deferred releases run on every exit; they balance the constructor's reference
+			}
+			// which call's error edge dominates this release?
+			for _, b := range f.Blocks {
+				for _, in := range b.Instrs {
+					call, ok := in.(*ssa.Call)
+					if !ok {
+						continue
+					}
+					sf := StaticFn(call.Common())
+					if sf == nil || sf.Blocks == nil || FuncPkgPath(sf) != Module {
+						continue
+					}
+					ev := ErrResult(call)
+					if ev == nil {
+						continue
+					}
+					onErr := false
+					for _, e := range NilEdges(f, FlowSet(ev)) {
+						if EdgeDominates(e.NonNil[0], e.NonNil[1], din.Block()) {
+							onErr = true
+						}
+					}
+					if !onErr {
+						continue
+					}
+					// only calls that were handed entries matter
+					takes := false
+					for _, a := range call.Call.Args {
+						if strings.Contains(a.Type().String(), "kv.Entry") {
+							takes = true
+						}
+					}
+					if !takes {
+						continue
+					}
+					sites++
+					c.Decide(!consumes(sf, 3), rule, key(f, fmt.Sprintf("Entry.DecrRef[%d]@err(%s)", ordinalIn(f, d), sf.Name())), d.Pos(), 3, "released on the error edge of a callee that leaves the entries with the caller", "an entry reference is released on the error edge of "+sf.Name()+", which may already have recycled the request that owned it (request.Wait / undetached request.DecrRef): a failed write panics with a refcount underflow instead of returning its error")
+				}
+			}
+		}
+	}
+	c.Floor(rule, sites, 2, "error-edge entry releases")
 }
